@@ -8,6 +8,9 @@ import (
 
 // Host returns the host of net.Addr.
 func Host(addr net.Addr) string {
+	if hp, ok := addr.(*hostPortAddr); ok {
+		return hp.host
+	}
 	return HostStr(addr.String())
 }
 
@@ -19,6 +22,9 @@ func HostStr(addr string) string {
 
 // Port returns the port of net.Addr.
 func Port(addr net.Addr) uint16 {
+	if hp, ok := addr.(*hostPortAddr); ok {
+		return hp.port
+	}
 	_, port, _ := splitHostPort(addr.String())
 	return port
 }
@@ -31,6 +37,9 @@ func PortStr(addr string) uint16 {
 
 // HostPort returns the split host and port of a net.Addr.
 func HostPort(addr net.Addr) (host string, port uint16) {
+	if hp, ok := addr.(*hostPortAddr); ok {
+		return hp.host, hp.port
+	}
 	host, port, _ = splitHostPort(addr.String())
 	return
 }
@@ -48,6 +57,23 @@ func Parse(addr string, network string) (net.Addr, error) {
 // NewAddr creates a new net.Addr without format validation.
 func NewAddr(addr, network string) net.Addr {
 	return &address{addr: addr, network: network}
+}
+
+// NewHostPortAddr creates a net.Addr from a host and a port that were received separately
+// (e.g. in a handshake packet). String() is "host:port" like NewAddr, but Host, Port and HostPort
+// return exactly the given parts even when the host itself contains colons (IPv6 literal,
+// TCPShield real-ip suffix), which can not be split off the joined string again.
+func NewHostPortAddr(host string, port uint16, network string) net.Addr {
+	return &hostPortAddr{
+		address: address{addr: host + ":" + strconv.Itoa(int(port)), network: network},
+		host:    host, port: port,
+	}
+}
+
+type hostPortAddr struct {
+	address
+	host string
+	port uint16
 }
 
 func splitHostPort(addr string) (host string, port uint16, err error) {
